@@ -220,6 +220,10 @@ func (c *l1NetConn) Read(b []byte) (int, error) { select {} }
 func (c *l1NetConn) Write(b []byte) (int, error) {
 	c.mu.Lock()
 	defer c.mu.Unlock()
+	if c.closed {
+		// like a real socket: nothing reaches the wire once the connection has been closed
+		return 0, net.ErrClosed
+	}
 	c.out = append(c.out, append([]byte{}, b...))
 	return len(b), nil
 }
